@@ -308,6 +308,13 @@ def impl_encode(case):
 				return encoder_of(net, sender).encode(recipient_public, plaintext)
 			if fmt == 'deprecated':
 				return encoder_of(net, sender).encode_deprecated(recipient_public, plaintext)
+			if case.get('ephemeral'):
+				# the ephemeral key the encoder draws is fixed for this case (its public key starts with a byte of the delegation marker)
+				from unittest import mock
+				from symbolchain.CryptoTypes import PrivateKey
+				with mock.patch.object(PrivateKey, 'random', staticmethod(lambda: PrivateKey(bytes.fromhex(case['ephemeral'])))):
+					return MessageEncoder.encode_persistent_harvesting_delegation(
+						recipient_public, key_pair_of(net, plaintext[:32]), key_pair_of(net, plaintext[32:64]))
 			return MessageEncoder.encode_persistent_harvesting_delegation(
 				recipient_public, key_pair_of(net, plaintext[:32]), key_pair_of(net, plaintext[32:64]))
 		encoder = encoder_of(net, sender)
@@ -327,6 +334,21 @@ def gen_message_cases(rng, pairs):
 				cases.append({
 					'kind': 'message', 'net': net, 'format': fmt, 'a': first.hex(), 'b': second.hex(), 'c': third.hex(),
 					'plaintext': rand_bytes(rng, size).hex()})
+	# delegation requests whose ephemeral public key begins with each byte of the 8-byte marker (prefix-stripping slips)
+	first, second, third = rand_bytes(rng, 32), rand_bytes(rng, 32), rand_bytes(rng, 32)
+	wanted = set(bytes.fromhex('FE2A8061577301E2'))
+	found = {}
+	for _ in range(20000):
+		if len(found) == len(wanted):
+			break
+		secret = rand_bytes(rng, 32)
+		lead = key_pair_of('sym', secret).public_key.bytes[0]
+		if lead in wanted and lead not in found:
+			found[lead] = secret
+	for lead in sorted(found):
+		cases.append({
+			'kind': 'message', 'net': 'sym', 'format': 'delegation', 'a': first.hex(), 'b': second.hex(), 'c': third.hex(),
+			'plaintext': rand_bytes(rng, 64).hex(), 'ephemeral': found[lead].hex()})
 	return cases
 
 
